@@ -617,6 +617,8 @@ package argmapper
 //@   ensures  planning == old(planning)
 //@   assigns  graph.Graph, Outer, Inner, HashM, VisitM, ItemM, []graph.Vertex, [][]graph.Vertex, []*graph.distQueueItem, *graph.distQueue, graph.distQueueItem, valueVertex.Value, typedArgVertex.Value, typedOutputVertex.Value, valueVertex, typedArgVertex, callState, NamedM, TypedM, ArgMap, map[interface{}]graph.Vertex, []*Value, Value, valueInternal, ErrArgumentUnsatisfied, Result, structValue, Func.onceResult, Func.execs, []interface{}, []error, []reflect.Value, multierror.Error, rvstore, rvfresh, nexec, failed, lastStruct, fin, frozen, cnt, reported, dvisited, kpos, spos
 //@   modifies forall(x, *valueVertex, true), forall(x, *typedArgVertex, true), forall(x, *typedOutputVertex, true), forall(x, *Func, true), state, state.NamedValue, state.TypedValue, state.InputSet
+//@   after "for _, v := range paths[i] {" assert [self-dependency-detected-on-the-whole-path] forall(j, int, imp(0 <= j && j < len(paths[i]) && paths[i][j] == target, len(unsatisfied) > 0))
+//@   loop 5 invariant forall(j, int, imp(0 <= j && j < idx5 && paths[i][j] == target, len(unsatisfied) > 0)) && len(unsatisfied) >= 0
 //@   loop 6 invariant failed == nil
 //@   loop 6 invariant planning == old(planning)
 //@   loop 7 invariant failed == nil
